@@ -98,6 +98,19 @@ func init() {
 		st.assumeRaw(Eq(x.strEq(r, slash), Eq(x.strID(st, r), x.strID(st, slash))))
 		k(st, []Value{r})
 	}
+	// (*url.URL).EscapedPath: the path in its wire form (RawPath when it is a valid encoding of Path)
+	models["net/url.URL.EscapedPath"] = func(x *Exec, fr *Frame, st *State, pc *preparedCall, k func(*State, []Value)) {
+		r := x.freshValue(st, types.Typ[types.String], "escpath").(StrV)
+		if u, ok := pc.recv.(PtrV); ok {
+			p, ok1 := x.specFieldOf(st, u, "Path").(StrV)
+			rp, ok2 := x.specFieldOf(st, u, "RawPath").(StrV)
+			if ok1 && ok2 {
+				st.assumeRaw(Eq(x.strID(st, r), App("escpath", SInt, x.strID(st, p), x.strID(st, rp))))
+				x.Trusted["url.URL.EscapedPath is the path as written on the wire: a function of Path and RawPath (net/url, assumed)"] = true
+			}
+		}
+		k(st, []Value{r})
+	}
 	models["strings.HasSuffix"] = func(x *Exec, fr *Frame, st *State, pc *preparedCall, k func(*State, []Value)) {
 		s := pc.args[0].(StrV)
 		suf, ok := strLitOf(pc.args[1].(StrV))
@@ -153,6 +166,9 @@ func (x *Exec) specKeyBuiltin(env *SpecEnv, name string, e *SExpr) (Value, bool)
 		return IntV{App("strfn_splithost", SInt, arg(0))}, true
 	case "pemnotafter":
 		return IntV{App("pem_notafter", SInt, arg(0))}, true
+	case "escpath":
+		x.Trusted["url.URL.EscapedPath is the path as written on the wire: a function of Path and RawPath (net/url, assumed)"] = true
+		return IntV{App("escpath", SInt, arg(0), arg(1))}, true
 	case "hashid":
 		x.injective("blake2b256", 1, "BLAKE2b-256 treated as injective on the inputs that occur (collision resistance, assumed)")
 		return IntV{App("blake2b256", SInt, arg(0))}, true
